@@ -965,10 +965,12 @@ def run(chk):
     chk.cov["traces_validated_against_impl"] = n_eval
     chk.cov["exhaustive"] = False
     chk.cov["rule"] = ("(a) all 81 promotion + 81 true-division + 9 abs table entries over {bool,int64,f32,f64,c64,c128,weak int/float/complex}, each measured on "
-                       "arrays, 0-d arrays and NumPy scalars (strong) / Python scalars (weak) with * and + (exhaustive for the table); (b) every configuration of the "
-                       f"{len(T)}-row entry-point table x data dtype in {{float32,float64}} (+complex64/complex128 where the entry point supports complex data) x "
-                       "mask dtype in {none, same, bool, int64, float64} where a mask is accepted (quick: one data seed; thorough: three); every array and NumPy "
-                       "scalar of the returned structure is inspected; distinct key = (configuration, data dtype, mask kind); all are non-trivial")
+                       "arrays, 0-d arrays and NumPy scalars (strong) / Python scalars (weak) with Python operators and NumPy ufuncs (exhaustive for the table); "
+                       f"(b) the corpus of past findings, then every configuration of the {len(T) - n_rand}-row entry-point table x data dtype in {{float32,float64}} "
+                       "(+complex64/complex128 where the entry point supports complex data) x mask dtype in {none, same, bool, int64, float64} where a mask is accepted "
+                       "(quick: one data seed; thorough: three); (c) " + str(n_rand) + " random option combinations (init x mask dtype x normalise x line search x sparsity x l2 x "
+                       "orthogonalise x errors x constraint kind x order/shape/rank x dtype) of the entry points with transcribed skeletons, generated from the check seed; "
+                       "every array and NumPy scalar of the returned structure is inspected; distinct key = (configuration, data dtype, mask kind); all are non-trivial")
     if n_skipped:
         chk.notes.append(f"{n_skipped} configuration runs hit the per-case timeout and were skipped (not a verdict)")
     for b in broken:
